@@ -137,9 +137,15 @@ def verdictBits (c : Spec.Conf) (log : List Obs) (idle : Bool) : String :=
 
 /-- positions of the observations a spec rejects (`end` = the final check); `specAll` is the conjunction -/
 def failPos (chk : Spec.Chk) (fin : Spec.Fin) (c : Spec.Conf) (idle : Bool) (log : List Obs) : List String :=
-  let rec go (m : Spec.Mon) (k : Nat) : List Obs → List String
-    | [] => if fin c m idle then [] else ["end"]
-    | o :: r => (if chk c m o then [] else [toString k]) ++ go (m.feed c o) (k + 1) r
+  let rec go (k : Spec.Core) (j : Nat) : List Obs → List String
+    | [] => if fin c k idle then [] else ["end"]
+    | o :: r => (if chk c k o then [] else [toString j]) ++ go (k.feed c o) (j + 1) r
+  go {} 0 log
+
+def failPosBubble (ls : List Ev) (log : List Obs) : List String :=
+  let rec go (f : Spec.Fire) (j : Nat) : List Obs → List String
+    | [] => if Spec.bubbleClosed ls f then [] else ["end"]
+    | o :: r => (if Spec.chkBubble ls f o then [] else [toString j]) ++ go (f.feed o) (j + 1) r
   go {} 0 log
 
 def failReport (c : Spec.Conf) (log : List Obs) (idle : Bool) : String :=
@@ -148,8 +154,9 @@ def failReport (c : Spec.Conf) (log : List Obs) (idle : Bool) : String :=
      ("roundRobin", Spec.chkRoundRobin, Spec.finTrue), ("first", Spec.chkFirst, Spec.finTrue),
      ("delay", Spec.chkDelay, Spec.finTrue), ("progress", Spec.chkGiveUp, Spec.finProgress),
      ("doneOnce", Spec.chkDoneOnce, Spec.finTrue), ("polarity", Spec.chkPolarity, Spec.finPolarity),
-     ("stop", Spec.chkStop, Spec.finTrue), ("bubble", Spec.chkBubble, Spec.finBubble)]
-  joinWith "," (specs.flatMap (fun (n, chk, fin) => (failPos chk fin c idle log).map (fun p => s!"{n}:{p}")))
+     ("stop", Spec.chkStop, Spec.finTrue)]
+  joinWith "," (specs.flatMap (fun (n, chk, fin) => (failPos chk fin c idle log).map (fun p => s!"{n}:{p}"))
+                ++ (failPosBubble c.listeners log).map (fun p => s!"bubble:{p}"))
 
 def handle : List String → Option String
   | ["comp.run", flags, ls, trs, zs, evs] => do
